@@ -320,3 +320,2397 @@ class Result(object):
 
 MARKER = None  # the marker entry in the list of active formatting elements
 REPROCESS = "reprocess"
+
+
+def _load_tokenizer():
+    try:
+        from . import tokenizer as t  # package-relative
+    except ImportError:               # pragma: no cover - script usage
+        import importlib
+        t = importlib.import_module("vf.ref.tokenizer")
+    return t
+
+
+TABLE_FOSTER_TARGETS = frozenset(["table", "tbody", "tfoot", "thead", "tr"])
+FRAGMENT_RCDATA = frozenset(["title", "textarea"])
+FRAGMENT_RAWTEXT = frozenset(["style", "xmp", "iframe", "noembed", "noframes"])
+TABLE_MODES_FOR_SELECT = frozenset(["in table", "in caption", "in table body", "in row",
+                                    "in cell"])
+FRAMESET_MODES = frozenset(["in frameset", "after frameset", "after after frameset"])
+
+
+class _Parser(object):
+    def __init__(self, text, scripting=False, compat=frozenset(), context=None):
+        t = _load_tokenizer()
+        self.compat = frozenset(compat)
+        self.scripting = bool(scripting)
+        self.trace = set()
+        self.modes = set()
+        self.document = Node("document")
+        self.quirks = "no-quirks"
+        self.stack = []              # stack of open elements (index 0 = topmost = html)
+        self.afe = []                # list of active formatting elements; MARKER = None
+        self.head = None             # head element pointer
+        self.form = None             # form element pointer
+        self.frameset_ok = True
+        self.foster = False          # foster parenting flag
+        self.template_modes = []
+        self.original_mode = None
+        self.pending_table_chars = []
+        self.skip_lf = False
+        self.stopped = False
+        self.context = None          # fragment context element
+        self.textarea_from_body = None
+        self.run_has_ws = False      # bookkeeping for frameset-text tags
+        self.run_has_nonws = False
+        self.mode = None
+        text = t.normalize_newlines(text)
+
+        initial_state = "data"
+        if context is not None:
+            self.trace.add("fragment")
+            ctx = Node("element", name=context, ns=HTML_NS)
+            self.context = ctx
+            # 13.4 step 4: tokenizer state from the context element
+            if context in FRAGMENT_RCDATA:
+                initial_state = "rcdata"
+            elif context in FRAGMENT_RAWTEXT:
+                initial_state = "rawtext"
+            elif context == "script":
+                initial_state = "script_data"
+            elif context == "noscript":
+                if self.scripting:
+                    initial_state = "rawtext"
+                else:
+                    self.trace.add("dev:noscript-fragment")
+                    if "noscript-fragment" in self.compat:
+                        initial_state = "rawtext"
+            elif context == "plaintext":
+                initial_state = "plaintext"
+        self.tok = t.RefTokenizer(text, initial_state=initial_state, last_start_tag=None,
+                                  cdata_allowed=self._cdata_allowed)
+        if context is not None:
+            # steps 5-: root html element
+            root = Node("element", name="html", ns=HTML_NS)
+            self.document.append(root)
+            self.stack.append(root)
+            if context == "template":
+                self.template_modes.append("in template")
+                self.trace.add("template")
+            self.reset_insertion_mode()
+            if context == "form":
+                self.trace.add("dev:form-context")
+                if "form-context" not in self.compat:
+                    self.form = ctx
+        else:
+            self.set_mode("initial")
+
+    # ------------------------------------------------------------------ small helpers
+    def tag(self, t):
+        self.trace.add(t)
+
+    def err(self):
+        self.trace.add("tree-error")
+
+    def set_mode(self, mode):
+        self.mode = mode
+        self.modes.add(mode)
+        if mode == "in template":
+            self.trace.add("template")
+
+    def _cdata_allowed(self):
+        acn = self.adjusted_current_node()
+        return acn is not None and acn.ns != HTML_NS
+
+    def current_node(self):
+        return self.stack[-1]
+
+    def adjusted_current_node(self):
+        if not self.stack:
+            return None
+        if self.context is not None and len(self.stack) == 1:
+            return self.context
+        return self.stack[-1]
+
+    def is_html(self, node, name):
+        return node.ns == HTML_NS and node.name == name
+
+    def is_special(self, node):
+        ns = node.ns
+        name = node.name
+        if ns == HTML_NS:
+            r = name in SPECIAL_HTML
+            if r:
+                if name in _H5L_SPECIAL_LACKS_HTML:
+                    self.trace.add("dev:special-extra")
+                    if "special-extra" in self.compat:
+                        return False
+            elif name in _H5L_SPECIAL_EXTRA_HTML:
+                self.trace.add("dev:special-extra")
+                if "special-extra" in self.compat:
+                    return True
+            return r
+        if ns == MATHML_NS:
+            r = name in SPECIAL_MATHML
+        elif ns == SVG_NS:
+            r = name in SPECIAL_SVG
+        else:
+            r = False
+        if r and (ns, name) in self._compat_special_foreign_lacks:
+            self.trace.add("dev:special-extra")
+            if "special-extra" in self.compat:
+                return False
+        return r
+
+    # (ns, name) pairs of foreign special elements html5lib lacks; see phase 2 below
+    _compat_special_foreign_lacks = frozenset(
+        [(MATHML_NS, n) for n in SPECIAL_MATHML] + [(SVG_NS, "desc"), (SVG_NS, "title")])
+
+    def template_on_stack(self):
+        for n in self.stack:
+            if n.ns == HTML_NS and n.name == "template":
+                return True
+        return False
+
+    # ------------------------------------------------------------------ scope
+    def in_scope(self, names, barriers=SCOPE_DEFAULT):
+        """has an HTML element whose name is in `names` (a str or a set) in the given scope"""
+        single = isinstance(names, str)
+        stack = self.stack
+        i = len(stack) - 1
+        while i >= 0:
+            node = stack[i]
+            if node.ns == HTML_NS and (node.name == names if single else node.name in names):
+                return True
+            if (node.ns, node.name) in barriers:
+                return False
+            i -= 1
+        return False  # not reached: html is always on the stack
+
+    def node_in_scope(self, target, barriers=SCOPE_DEFAULT):
+        stack = self.stack
+        i = len(stack) - 1
+        while i >= 0:
+            node = stack[i]
+            if node is target:
+                return True
+            if (node.ns, node.name) in barriers:
+                return False
+            i -= 1
+        return False
+
+    def in_button_scope(self, names):
+        return self.in_scope(names, SCOPE_BUTTON)
+
+    def in_list_item_scope(self, names):
+        return self.in_scope(names, SCOPE_LIST_ITEM)
+
+    def in_table_scope(self, names):
+        return self.in_scope(names, SCOPE_TABLE)
+
+    def in_select_scope(self, name):
+        stack = self.stack
+        i = len(stack) - 1
+        while i >= 0:
+            node = stack[i]
+            if node.ns == HTML_NS:
+                if node.name == name:
+                    return True
+                if node.name not in ("optgroup", "option"):
+                    return False
+            else:
+                return False
+            i -= 1
+        return False
+
+    # ------------------------------------------------------------------ stack
+    def pop(self):
+        return self.stack.pop()
+
+    def pop_until(self, names):
+        """pop until an HTML element with one of the names has been popped"""
+        single = isinstance(names, str)
+        stack = self.stack
+        while stack:
+            node = stack.pop()
+            if node.ns == HTML_NS and (node.name == names if single else node.name in names):
+                return node
+        return None
+
+    def pop_until_node(self, target):
+        stack = self.stack
+        while stack:
+            node = stack.pop()
+            if node is target:
+                return
+
+    def remove_from_stack(self, node):
+        stack = self.stack
+        i = len(stack) - 1
+        while i >= 0:
+            if stack[i] is node:
+                del stack[i]
+                return True
+            i -= 1
+        return False
+
+    def index_in_stack(self, node):
+        stack = self.stack
+        i = len(stack) - 1
+        while i >= 0:
+            if stack[i] is node:
+                return i
+            i -= 1
+        return -1
+
+    def generate_implied_end_tags(self, except_for=None, thorough=False):
+        names = IMPLIED_END_THOROUGH if thorough else IMPLIED_END
+        stack = self.stack
+        count = 0
+        while stack:
+            node = stack[-1]
+            if node.ns != HTML_NS or node.name not in names or node.name == except_for:
+                break
+            if node.name in ("rb", "rtc"):
+                self.trace.add("dev:rb-rtc")
+                if "rb-rtc" in self.compat and not thorough:
+                    break
+            stack.pop()
+            count += 1
+        if count > 900:
+            self.trace.add("dev:implied-end-recursive")
+
+    def close_p(self):
+        self.generate_implied_end_tags(except_for="p")
+        if not self.is_html(self.stack[-1], "p"):
+            self.err()
+        self.pop_until("p")
+
+    def clear_stack_to(self, names):
+        stack = self.stack
+        while True:
+            node = stack[-1]
+            if node.ns == HTML_NS and node.name in names:
+                if node.name == "template":
+                    self.trace.add("template")
+                return
+            stack.pop()
+
+    # ------------------------------------------------------------------ insertion
+    def appropriate_place(self, override=None):
+        """returns (parent, before) -- before None means 'after the last child'"""
+        target = override if override is not None else self.stack[-1]
+        if self.foster and target.ns == HTML_NS and target.name in TABLE_FOSTER_TARGETS:
+            self.trace.add("foster")
+            stack = self.stack
+            last_template = -1
+            last_table = -1
+            i = len(stack) - 1
+            while i >= 0:
+                n = stack[i]
+                if n.ns == HTML_NS:
+                    if n.name == "template" and last_template < 0:
+                        last_template = i
+                    elif n.name == "table" and last_table < 0:
+                        last_table = i
+                    if last_template >= 0 and last_table >= 0:
+                        break
+                i -= 1
+            if last_template >= 0 and (last_table < 0 or last_template > last_table):
+                self.trace.add("template")
+                return (stack[last_template].template_contents, None)
+            if last_table < 0:
+                parent, before = stack[0], None       # fragment case
+            else:
+                table = stack[last_table]
+                if table.parent is not None:
+                    parent, before = table.parent, table
+                else:
+                    parent, before = stack[last_table - 1], None
+        else:
+            parent, before = target, None
+        if parent.kind == "element" and parent.ns == HTML_NS and parent.name == "template":
+            # inside a template element -> inside its template contents, after its last child
+            self.trace.add("template")
+            return (parent.template_contents, None)
+        return (parent, before)
+
+    def create_element(self, name, attrs, ns=HTML_NS):
+        """create an element for a token; attrs already in (ns, local, value) form"""
+        el = Node("element", name=name, ns=ns, attrs=list(attrs))
+        if ns == HTML_NS and name == "template":
+            el.template_contents = Node("fragment")
+        return el
+
+    def clone_element(self, node):
+        # "create an element for the token for which the element was created"
+        return self.create_element(node.name, node.attrs, node.ns)
+
+    def insert_html_element(self, name, token_attrs=()):
+        attrs = [(None, n, v) for (n, v) in token_attrs]
+        return self.insert_element(name, attrs, HTML_NS)
+
+    def insert_element(self, name, attrs, ns):
+        parent, before = self.appropriate_place()
+        el = self.create_element(name, attrs, ns)
+        parent.insert_before(el, before)
+        self.stack.append(el)
+        return el
+
+    def insert_comment(self, data, parent=None):
+        node = Node("comment", data=data)
+        if parent is not None:
+            parent.append(node)
+            return
+        p, before = self.appropriate_place()
+        p.insert_before(node, before)
+
+    def insert_text(self, data):
+        parent, before = self.appropriate_place()
+        if parent.kind == "document":
+            return
+        children = parent.children
+        prev = None
+        if before is None:
+            if children:
+                prev = children[-1]
+        else:
+            idx = _index_identity(children, before)
+            if idx > 0:
+                prev = children[idx - 1]
+        if prev is not None and prev.kind == "text":
+            prev.data += data
+        else:
+            node = Node("text", data=data)
+            parent.insert_before(node, before)
+        if self.textarea_from_body is not None and self.stack[-1] is self.textarea_from_body:
+            self.trace.add("textarea-in-body-text")
+
+    def add_missing_attrs(self, element, token_attrs):
+        have = set((a[0], a[1]) for a in element.attrs)
+        changed = False
+        for (n, v) in token_attrs:
+            if (None, n) not in have:
+                element.attrs.append((None, n, v))
+                have.add((None, n))
+                changed = True
+        return changed
+
+    # ------------------------------------------------------------------ AFE
+    def push_afe(self, element):
+        # Noah's Ark clause
+        afe = self.afe
+        key = frozenset(element.attrs)
+        same = []
+        i = len(afe) - 1
+        while i >= 0:
+            e = afe[i]
+            if e is MARKER:
+                break
+            if (e.name == element.name and e.ns == element.ns
+                    and len(e.attrs) == len(element.attrs) and frozenset(e.attrs) == key):
+                same.append(i)
+            i -= 1
+        if len(same) >= 3:
+            self.trace.add("noahs-ark")
+            del afe[same[-1]]   # the earliest such element
+        afe.append(element)
+
+    def push_marker(self):
+        self.afe.append(MARKER)
+
+    def clear_afe_to_marker(self):
+        afe = self.afe
+        while afe:
+            e = afe.pop()
+            if e is MARKER:
+                break
+
+    def index_in_afe(self, node):
+        afe = self.afe
+        i = len(afe) - 1
+        while i >= 0:
+            if afe[i] is node:
+                return i
+            i -= 1
+        return -1
+
+    def afe_needs_reconstruct(self):
+        afe = self.afe
+        if not afe:
+            return False
+        e = afe[-1]
+        if e is MARKER or self.index_in_stack(e) >= 0:
+            return False
+        return True
+
+    def reconstruct_afe(self):
+        afe = self.afe
+        # 1-2
+        if not afe:
+            return
+        entry = afe[-1]
+        if entry is MARKER or self.index_in_stack(entry) >= 0:
+            return
+        # 3-6 rewind
+        i = len(afe) - 1
+        on_stack = set(id(n) for n in self.stack)
+        while True:
+            if i == 0:
+                break          # no earlier entries: jump to "create"
+            i -= 1
+            entry = afe[i]
+            if entry is MARKER or id(entry) in on_stack:
+                i += 1         # advance
+                break
+        # 7-10 advance / create
+        self.trace.add("reconstruct")
+        while True:
+            entry = afe[i]
+            new = self.clone_element(entry)
+            parent, before = self.appropriate_place()
+            parent.insert_before(new, before)
+            self.stack.append(new)
+            afe[i] = new
+            if i == len(afe) - 1:
+                break
+            i += 1
+
+    # ------------------------------------------------------------------ reset mode
+    def reset_insertion_mode(self):
+        stack = self.stack
+        i = len(stack) - 1
+        last = False
+        while True:
+            node = stack[i]
+            if i == 0:
+                last = True
+                if self.context is not None:
+                    node = self.context
+            if node.ns == HTML_NS:
+                name = node.name
+                if name == "select":
+                    mode = "in select"
+                    if not last:
+                        j = i
+                        while j > 0:
+                            j -= 1
+                            anc = stack[j]
+                            if anc.ns == HTML_NS:
+                                if anc.name == "template":
+                                    break
+                                if anc.name == "table":
+                                    mode = "in select in table"
+                                    break
+                    self.set_mode(mode)
+                    return
+                if name in ("td", "th") and not last:
+                    self.set_mode("in cell")
+                    return
+                if name == "tr":
+                    self.set_mode("in row")
+                    return
+                if name in ("tbody", "thead", "tfoot"):
+                    self.set_mode("in table body")
+                    return
+                if name == "caption":
+                    self.set_mode("in caption")
+                    return
+                if name == "colgroup":
+                    self.set_mode("in column group")
+                    return
+                if name == "table":
+                    self.set_mode("in table")
+                    return
+                if name == "template":
+                    self.trace.add("template")
+                    self.set_mode(self.template_modes[-1])
+                    return
+                if name == "head" and not last:
+                    self.set_mode("in head")
+                    return
+                if name == "body":
+                    self.set_mode("in body")
+                    return
+                if name == "frameset":
+                    self.set_mode("in frameset")
+                    return
+                if name == "html":
+                    if self.head is None:
+                        self.set_mode("before head")
+                    else:
+                        self.set_mode("after head")
+                    return
+            if last:
+                self.set_mode("in body")
+                return
+            i -= 1
+
+    # ------------------------------------------------------------------ misc algorithms
+    def generic_text(self, token, state):
+        self.insert_html_element(token[1], token[2])
+        self.tok.state = state
+        self.original_mode = self.mode
+        self.set_mode("text")
+
+    def stop_parsing(self):
+        del self.stack[:]
+        self.stopped = True
+
+    # ------------------------------------------------------------------ main loop
+    def run(self):
+        tok = self.tok
+        while not self.stopped:
+            token = tok.next_token()
+            kind = token[0]
+            if kind == "chars":
+                data = token[1]
+                if self.skip_lf:
+                    self.skip_lf = False
+                    if data[:1] == "\n":
+                        self.trace.add("skip-lf")
+                        data = data[1:]
+                if not data:
+                    continue
+                # split into runs of identically treated characters: ws / NUL / other
+                n = len(data)
+                i = 0
+                while i < n and not self.stopped:
+                    c = data[i]
+                    j = i + 1
+                    if c == "\x00":
+                        cls = "nul"
+                        while j < n and data[j] == "\x00":
+                            j += 1
+                    elif c in WS:
+                        cls = "ws"
+                        while j < n and data[j] in WS:
+                            j += 1
+                    else:
+                        cls = "text"
+                        while j < n and data[j] != "\x00" and data[j] not in WS:
+                            j += 1
+                    self.process(("chars", data[i:j], cls))
+                    i = j
+            else:
+                self.skip_lf = False
+                self.run_has_ws = False
+                self.run_has_nonws = False
+                self.process(token)
+                if kind == "eof":
+                    break
+        # EOF processed: "stop parsing" pops everything
+        del self.stack[:]
+
+    def use_insertion_mode(self, token):
+        """the tree construction dispatcher"""
+        if not self.stack:
+            return True
+        acn = self.adjusted_current_node()
+        if acn.ns == HTML_NS:
+            return True
+        kind = token[0]
+        if acn.ns == MATHML_NS and acn.name in MATHML_TEXT_IP:
+            if kind == "start" and token[1] not in ("mglyph", "malignmark"):
+                self.trace.add("integration-point")
+                return True
+            if kind == "chars":
+                self.trace.add("integration-point")
+                return True
+        if (acn.ns == MATHML_NS and acn.name == "annotation-xml" and kind == "start"
+                and token[1] == "svg"):
+            self.trace.add("integration-point")
+            return True
+        if (kind == "start" or kind == "chars") and self.is_html_integration_point(acn):
+            self.trace.add("integration-point")
+            return True
+        if kind == "eof":
+            return True
+        return False
+
+    def is_html_integration_point(self, node):
+        if node.ns == SVG_NS:
+            return node.name in ("foreignObject", "desc", "title")
+        if node.ns == MATHML_NS and node.name == "annotation-xml":
+            for (ans, an, av) in node.attrs:
+                if ans is None and an == "encoding":
+                    v = _ascii_lower(av)
+                    return v == "text/html" or v == "application/xhtml+xml"
+        return False
+
+    def process(self, token):
+        while True:
+            if self.use_insertion_mode(token):
+                if token[0] == "chars" and token[2] == "nul" and self.stack:
+                    acn = self.adjusted_current_node()
+                    if acn.ns != HTML_NS:
+                        self.trace.add("nul-in-integration-point")
+                        self.trace.add("dev:cdata-nul")
+                r = self.MODES[self.mode](self, token)
+            else:
+                r = self.foreign_content(token)
+            if r is not REPROCESS or self.stopped:
+                return
+
+    # ------------------------------------------------------------------ adoption agency
+    def adoption_agency(self, subject):
+        stack = self.stack
+        afe = self.afe
+        # step 2 (numbering of the 2020 text: 1 subject, 2 early exit)
+        cur = stack[-1]
+        if cur.ns == HTML_NS and cur.name == subject and self.index_in_afe(cur) < 0:
+            self.trace.add("aaa:step-current-node")
+            self.trace.add("dev:aaa-step1")
+            if "aaa-step1" not in self.compat:
+                stack.pop()
+                return
+        outer = 0
+        while True:
+            if outer >= 8:
+                self.trace.add("aaa:outer-limit")
+                return
+            outer += 1
+            if outer == 2:
+                self.trace.add("aaa:outer>1")
+            # formatting element
+            fe = None
+            i = len(afe) - 1
+            while i >= 0:
+                e = afe[i]
+                if e is MARKER:
+                    break
+                if e.ns == HTML_NS and e.name == subject:
+                    fe = e
+                    break
+                i -= 1
+            if fe is None:
+                self.trace.add("aaa:no-formatting-element")
+                self.any_other_end_tag(subject)
+                return
+            fe_stack_idx = self.index_in_stack(fe)
+            if fe_stack_idx < 0:
+                self.err()
+                self.trace.add("aaa:not-in-stack")
+                del afe[self.index_in_afe(fe)]
+                return
+            if not self.node_in_scope(fe):
+                self.err()
+                self.trace.add("aaa:not-in-scope")
+                self.trace.add("dev:aaa-not-in-scope")
+                if "aaa-not-in-scope" in self.compat:
+                    self.any_other_end_tag(subject)
+                return
+            if fe is not stack[-1]:
+                self.err()
+            # furthest block
+            fb = None
+            fb_idx = -1
+            k = fe_stack_idx + 1
+            while k < len(stack):
+                if self.is_special(stack[k]):
+                    fb = stack[k]
+                    fb_idx = k
+                    break
+                k += 1
+            if fb is None:
+                self.trace.add("aaa:no-furthest-block")
+                del stack[fe_stack_idx:]
+                del afe[self.index_in_afe(fe)]
+                return
+            self.trace.add("aaa:furthest-block")
+            common_ancestor = stack[fe_stack_idx - 1]
+            bookmark = self.index_in_afe(fe)
+            node_idx = fb_idx
+            last_node = fb
+            inner = 0
+            while True:
+                inner += 1
+                node_idx -= 1
+                node = stack[node_idx]
+                if node is fe:
+                    break
+                node_afe_idx = self.index_in_afe(node)
+                if inner > 3:
+                    self.trace.add("aaa:inner>3")
+                    self.trace.add("dev:aaa-inner-loop")
+                    if "aaa-inner-loop" in self.compat:
+                        # html5lib: the loop simply ends after three iterations
+                        break
+                    if node_afe_idx >= 0:
+                        del afe[node_afe_idx]
+                        if node_afe_idx < bookmark:
+                            bookmark -= 1
+                        node_afe_idx = -1
+                if node_afe_idx < 0:
+                    del stack[node_idx]
+                    continue
+                new = self.clone_element(node)
+                afe[node_afe_idx] = new
+                stack[node_idx] = new
+                node = new
+                if last_node is fb:
+                    bookmark = node_afe_idx + 1
+                node.append(last_node)
+                last_node = node
+            # step 15: insert last node at the appropriate place, override = common ancestor
+            parent, before = self.appropriate_place(common_ancestor)
+            parent.insert_before(last_node, before)
+            # 16-18
+            new = self.clone_element(fe)
+            kids = fb.children
+            fb.children = []
+            for c in kids:
+                c.parent = new
+            new.children = kids
+            fb.append(new)
+            # 19
+            fe_afe_idx = self.index_in_afe(fe)
+            del afe[fe_afe_idx]
+            if fe_afe_idx < bookmark:
+                bookmark -= 1
+            afe.insert(bookmark, new)
+            # 20
+            self.remove_from_stack(fe)
+            stack.insert(self.index_in_stack(fb) + 1, new)
+
+    def any_other_end_tag(self, name):
+        """'any other end tag' of the "in body" insertion mode"""
+        stack = self.stack
+        i = len(stack) - 1
+        compat_ns = "any-other-end-tag-ns" in self.compat
+        while i >= 0:
+            node = stack[i]
+            if node.name == name and node.ns != HTML_NS:
+                self.trace.add("dev:any-other-end-tag-ns")
+            if node.name == name and (node.ns == HTML_NS or compat_ns):
+                self.generate_implied_end_tags(except_for=name)
+                if node is not stack[-1]:
+                    self.err()
+                # pop up to and including node (it may already be gone only if implied
+                # end tags popped it, which the except_for prevents)
+                idx = self.index_in_stack(node)
+                if idx >= 0:
+                    del stack[idx:]
+                return
+            if self.is_special(node):
+                self.err()
+                return
+            i -= 1
+
+    # ================================================================== insertion modes
+    # Token shapes: ("doctype", name, public, system, force_quirks) ("start", name, attrs, sc)
+    # ("end", name) ("comment", data) ("chars", data, cls) ("eof",)
+
+    # ------------------------------------------------------------------ initial
+    def m_initial(self, token):
+        kind = token[0]
+        if kind == "chars" and token[2] == "ws":
+            return None
+        if kind == "comment":
+            self.insert_comment(token[1], self.document)
+            return None
+        if kind == "doctype":
+            name, public, system, force_quirks = token[1], token[2], token[3], token[4]
+            if (name != "html" or public is not None
+                    or (system is not None and system != "about:legacy-compat")):
+                self.err()
+            node = Node("doctype", name=name if name is not None else "",
+                        public=public if public is not None else "",
+                        system=system if system is not None else "")
+            self.document.append(node)
+            self.trace.add("doctype")
+            self.quirks = self.doctype_quirks(name, public, system, force_quirks)
+            self.set_mode("before html")
+            return None
+        # anything else
+        self.err()
+        self.quirks = "quirks"
+        self.set_mode("before html")
+        return REPROCESS
+
+    @staticmethod
+    def doctype_quirks(name, public, system, force_quirks):
+        pub = _ascii_lower(public) if public is not None else None
+        sysid = _ascii_lower(system) if system is not None else None
+        if force_quirks or name != "html":
+            return "quirks"
+        if pub is not None:
+            if pub in QUIRKS_PUBLIC_EXACT:
+                return "quirks"
+            if pub.startswith(QUIRKS_PUBLIC_PREFIXES):
+                return "quirks"
+        if sysid is not None and sysid == QUIRKS_SYSTEM_EXACT:
+            return "quirks"
+        if pub is not None and pub.startswith(HTML401_PREFIXES):
+            if sysid is None:
+                return "quirks"
+            return "limited-quirks"
+        if pub is not None and pub.startswith(LIMITED_QUIRKS_PREFIXES):
+            return "limited-quirks"
+        return "no-quirks"
+
+    # ------------------------------------------------------------------ before html
+    def m_before_html(self, token):
+        kind = token[0]
+        if kind == "doctype":
+            self.err()
+            self.trace.add("doctype-ignored")
+            return None
+        if kind == "comment":
+            self.insert_comment(token[1], self.document)
+            return None
+        if kind == "chars" and token[2] == "ws":
+            return None
+        if kind == "start" and token[1] == "html":
+            el = self.create_element("html", [(None, n, v) for (n, v) in token[2]])
+            self.document.append(el)
+            self.stack.append(el)
+            self.set_mode("before head")
+            return None
+        if kind == "end" and token[1] not in ("head", "body", "html", "br"):
+            self.err()
+            return None
+        el = self.create_element("html", [])
+        self.document.append(el)
+        self.stack.append(el)
+        self.set_mode("before head")
+        return REPROCESS
+
+    # ------------------------------------------------------------------ before head
+    def m_before_head(self, token):
+        kind = token[0]
+        if kind == "chars" and token[2] == "ws":
+            return None
+        if kind == "comment":
+            self.insert_comment(token[1])
+            return None
+        if kind == "doctype":
+            self.err()
+            self.trace.add("doctype-ignored")
+            return None
+        if kind == "start":
+            if token[1] == "html":
+                return self.m_in_body(token)
+            if token[1] == "head":
+                self.head = self.insert_html_element("head", token[2])
+                self.set_mode("in head")
+                return None
+        if kind == "end" and token[1] not in ("head", "body", "html", "br"):
+            self.err()
+            return None
+        self.head = self.insert_html_element("head")
+        self.set_mode("in head")
+        return REPROCESS
+
+    # ------------------------------------------------------------------ in head
+    def m_in_head(self, token):
+        kind = token[0]
+        if kind == "chars" and token[2] == "ws":
+            self.insert_text(token[1])
+            return None
+        if kind == "comment":
+            self.insert_comment(token[1])
+            return None
+        if kind == "doctype":
+            self.err()
+            self.trace.add("doctype-ignored")
+            return None
+        if kind == "start":
+            name = token[1]
+            if name == "html":
+                return self.m_in_body(token)
+            if name in ("base", "basefont", "bgsound", "link"):
+                self.insert_html_element(name, token[2])
+                self.stack.pop()
+                return None
+            if name == "meta":
+                self.insert_html_element(name, token[2])
+                self.stack.pop()
+                return None
+            if name == "command":
+                self.trace.add("dev:command")
+                if "command" in self.compat:
+                    self.insert_html_element(name, token[2])
+                    self.stack.pop()
+                    return None
+            if name == "title":
+                self.generic_text(token, "rcdata")
+                return None
+            if (name == "noscript" and self.scripting) or name in ("noframes", "style"):
+                self.generic_text(token, "rawtext")
+                return None
+            if name == "noscript":
+                self.insert_html_element(name, token[2])
+                self.set_mode("in head noscript")
+                return None
+            if name == "script":
+                self.insert_html_element(name, token[2])
+                self.tok.state = "script_data"
+                self.original_mode = self.mode
+                self.set_mode("text")
+                return None
+            if name == "template":
+                self.trace.add("template")
+                self.insert_html_element(name, token[2])
+                self.push_marker()
+                self.frameset_ok = False
+                self.set_mode("in template")
+                self.template_modes.append("in template")
+                return None
+            if name == "head":
+                self.err()
+                return None
+        elif kind == "end":
+            name = token[1]
+            if name == "head":
+                self.stack.pop()
+                self.set_mode("after head")
+                return None
+            if name == "template":
+                self.trace.add("template")
+                if not self.template_on_stack():
+                    self.err()
+                    return None
+                self.generate_implied_end_tags(thorough=True)
+                if not self.is_html(self.stack[-1], "template"):
+                    self.err()
+                self.pop_until("template")
+                self.clear_afe_to_marker()
+                self.template_modes.pop()
+                self.reset_insertion_mode()
+                return None
+            if name not in ("body", "html", "br"):
+                self.err()
+                return None
+        # anything else
+        self.stack.pop()   # the head element
+        self.set_mode("after head")
+        return REPROCESS
+
+    # ------------------------------------------------------------------ in head noscript
+    def m_in_head_noscript(self, token):
+        kind = token[0]
+        if kind == "doctype":
+            self.err()
+            self.trace.add("doctype-ignored")
+            return None
+        if kind == "start":
+            name = token[1]
+            if name == "html":
+                return self.m_in_body(token)
+            if name in ("basefont", "bgsound", "link", "meta", "noframes", "style"):
+                return self.m_in_head(token)
+            if name in ("head", "noscript"):
+                self.err()
+                return None
+        elif kind == "end":
+            name = token[1]
+            if name == "noscript":
+                self.stack.pop()
+                self.set_mode("in head")
+                return None
+            if name != "br":
+                self.err()
+                return None
+        elif kind == "comment" or (kind == "chars" and token[2] == "ws"):
+            return self.m_in_head(token)
+        # anything else
+        self.err()
+        self.stack.pop()
+        self.set_mode("in head")
+        return REPROCESS
+
+    # ------------------------------------------------------------------ after head
+    def m_after_head(self, token):
+        kind = token[0]
+        if kind == "chars" and token[2] == "ws":
+            self.insert_text(token[1])
+            return None
+        if kind == "comment":
+            self.insert_comment(token[1])
+            return None
+        if kind == "doctype":
+            self.err()
+            self.trace.add("doctype-ignored")
+            return None
+        if kind == "start":
+            name = token[1]
+            if name == "html":
+                return self.m_in_body(token)
+            if name == "body":
+                self.insert_html_element(name, token[2])
+                self.frameset_ok = False
+                self.set_mode("in body")
+                return None
+            if name == "frameset":
+                self.insert_html_element(name, token[2])
+                self.trace.add("frameset")
+                self.set_mode("in frameset")
+                return None
+            if name in ("base", "basefont", "bgsound", "link", "meta", "noframes", "script",
+                        "style", "template", "title"):
+                self.err()
+                head = self.head
+                self.stack.append(head)
+                r = self.m_in_head(token)
+                self.remove_from_stack(head)
+                return r
+            if name == "head":
+                self.err()
+                return None
+        elif kind == "end":
+            name = token[1]
+            if name == "template":
+                return self.m_in_head(token)
+            if name not in ("body", "html", "br"):
+                self.err()
+                return None
+        # anything else
+        self.insert_html_element("body")
+        self.set_mode("in body")
+        return REPROCESS
+
+    # ------------------------------------------------------------------ in body
+    BODY_HEADISH_START = frozenset(["base", "basefont", "bgsound", "link", "meta", "noframes",
+                                    "script", "style", "template", "title"])
+    BODY_BLOCK_START = frozenset("""address article aside blockquote center details dialog dir
+        div dl fieldset figcaption figure footer header hgroup main menu nav ol p section summary
+        ul""".split())
+    BODY_BLOCK_END = frozenset("""address article aside blockquote button center details dialog
+        dir div dl fieldset figcaption figure footer header hgroup listing main menu nav ol pre
+        section summary ul""".split())
+    BODY_FORMATTING_START = frozenset("b big code em font i s small strike strong tt u".split())
+    BODY_IGNORED_START = frozenset("caption col colgroup frame head tbody td tfoot th thead tr"
+                                   .split())
+
+    def m_in_body(self, token):
+        kind = token[0]
+        if kind == "chars":
+            cls = token[2]
+            if cls == "nul":
+                self.err()
+                self.trace.add("nul-dropped")
+                return None
+            self.reconstruct_afe()
+            self.insert_text(token[1])
+            if cls == "text":
+                self.frameset_ok = False
+            return None
+        if kind == "comment":
+            self.insert_comment(token[1])
+            return None
+        if kind == "doctype":
+            self.err()
+            self.trace.add("doctype-ignored")
+            return None
+        if kind == "start":
+            return self.in_body_start(token)
+        if kind == "end":
+            return self.in_body_end(token)
+        # EOF
+        if self.template_modes:
+            return self.m_in_template(token)
+        self.stop_parsing()
+        return None
+
+    def in_body_start(self, token):
+        name = token[1]
+        attrs = token[2]
+        stack = self.stack
+        if name == "html":
+            self.err()
+            if self.template_on_stack():
+                self.trace.add("template")
+                return None
+            if self.add_missing_attrs(stack[0], attrs):
+                self.trace.add("html-attrs-merged")
+            return None
+        if name in self.BODY_HEADISH_START:
+            return self.m_in_head(token)
+        if name == "body":
+            self.err()
+            if len(stack) == 1 or not self.is_html(stack[1], "body"):
+                return None
+            if self.template_on_stack():
+                self.trace.add("template")
+                return None
+            self.frameset_ok = False
+            if self.add_missing_attrs(stack[1], attrs):
+                self.trace.add("body-attrs-merged")
+            return None
+        if name == "frameset":
+            self.err()
+            if len(stack) == 1 or not self.is_html(stack[1], "body"):
+                return None
+            if not self.frameset_ok:
+                return None
+            body = stack[1]
+            if body.parent is not None:
+                body.parent.remove(body)
+            del stack[1:]
+            self.insert_html_element(name, attrs)
+            self.trace.add("frameset")
+            self.trace.add("frameset-replaces-body")
+            self.set_mode("in frameset")
+            return None
+        if name in self.BODY_BLOCK_START:
+            if self.in_button_scope("p"):
+                if name == "dialog":
+                    self.trace.add("dev:dialog-close-p")
+                    if "dialog-close-p" not in self.compat:
+                        self.close_p()
+                else:
+                    self.close_p()
+            self.insert_html_element(name, attrs)
+            return None
+        if name in HEADINGS:
+            if self.in_button_scope("p"):
+                self.close_p()
+            cur = stack[-1]
+            if cur.ns == HTML_NS and cur.name in HEADINGS:
+                self.err()
+                self.trace.add("heading-nesting")
+                stack.pop()
+            self.insert_html_element(name, attrs)
+            return None
+        if name in ("pre", "listing"):
+            if self.in_button_scope("p"):
+                self.close_p()
+            self.insert_html_element(name, attrs)
+            self.skip_lf = True
+            self.frameset_ok = False
+            return None
+        if name == "form":
+            has_template = self.template_on_stack()
+            if self.form is not None and not has_template:
+                self.err()
+                self.trace.add("form-pointer-ignore")
+                return None
+            if has_template:
+                self.trace.add("template")
+            if self.in_button_scope("p"):
+                self.close_p()
+            el = self.insert_html_element(name, attrs)
+            if not has_template:
+                self.form = el
+            return None
+        if name == "li":
+            self.frameset_ok = False
+            i = len(stack) - 1
+            while True:
+                node = stack[i]
+                if self.is_html(node, "li"):
+                    self.generate_implied_end_tags(except_for="li")
+                    if not self.is_html(stack[-1], "li"):
+                        self.err()
+                    self.pop_until("li")
+                    break
+                if self.is_special(node) and not (
+                        node.ns == HTML_NS and node.name in ("address", "div", "p")):
+                    break
+                i -= 1
+            if self.in_button_scope("p"):
+                self.close_p()
+            self.insert_html_element(name, attrs)
+            return None
+        if name in ("dd", "dt"):
+            self.frameset_ok = False
+            i = len(stack) - 1
+            while True:
+                node = stack[i]
+                if self.is_html(node, "dd"):
+                    self.generate_implied_end_tags(except_for="dd")
+                    if not self.is_html(stack[-1], "dd"):
+                        self.err()
+                    self.pop_until("dd")
+                    break
+                if self.is_html(node, "dt"):
+                    self.generate_implied_end_tags(except_for="dt")
+                    if not self.is_html(stack[-1], "dt"):
+                        self.err()
+                    self.pop_until("dt")
+                    break
+                if self.is_special(node) and not (
+                        node.ns == HTML_NS and node.name in ("address", "div", "p")):
+                    break
+                i -= 1
+            if self.in_button_scope("p"):
+                self.close_p()
+            self.insert_html_element(name, attrs)
+            return None
+        if name == "plaintext":
+            if self.in_button_scope("p"):
+                self.close_p()
+            self.insert_html_element(name, attrs)
+            self.tok.state = "plaintext"
+            return None
+        if name == "button":
+            if self.in_scope("button"):
+                self.err()
+                self.generate_implied_end_tags()
+                self.pop_until("button")
+            self.reconstruct_afe()
+            self.insert_html_element(name, attrs)
+            self.frameset_ok = False
+            return None
+        if name == "a":
+            afe = self.afe
+            i = len(afe) - 1
+            found = None
+            while i >= 0:
+                e = afe[i]
+                if e is MARKER:
+                    break
+                if e.ns == HTML_NS and e.name == "a":
+                    found = e
+                    break
+                i -= 1
+            if found is not None:
+                self.err()
+                self.adoption_agency("a")
+                idx = self.index_in_afe(found)
+                if idx >= 0:
+                    del afe[idx]
+                self.remove_from_stack(found)
+            self.reconstruct_afe()
+            el = self.insert_html_element(name, attrs)
+            self.push_afe(el)
+            return None
+        if name in self.BODY_FORMATTING_START:
+            self.reconstruct_afe()
+            el = self.insert_html_element(name, attrs)
+            self.push_afe(el)
+            return None
+        if name == "nobr":
+            self.reconstruct_afe()
+            if self.in_scope("nobr"):
+                self.err()
+                self.adoption_agency("nobr")
+                self.reconstruct_afe()
+            el = self.insert_html_element(name, attrs)
+            self.push_afe(el)
+            return None
+        if name in ("applet", "marquee", "object"):
+            self.reconstruct_afe()
+            self.insert_html_element(name, attrs)
+            self.push_marker()
+            self.frameset_ok = False
+            return None
+        if name == "table":
+            if self.in_button_scope("p"):
+                if self.quirks != "quirks":
+                    self.close_p()
+                else:
+                    self.trace.add("quirks-table-close-p-skip")
+            self.insert_html_element(name, attrs)
+            self.frameset_ok = False
+            self.set_mode("in table")
+            return None
+        if name in ("area", "br", "embed", "img", "keygen", "wbr"):
+            self.reconstruct_afe()
+            self.insert_html_element(name, attrs)
+            stack.pop()
+            self.frameset_ok = False
+            return None
+        if name == "input":
+            self.reconstruct_afe()
+            self.insert_html_element(name, attrs)
+            stack.pop()
+            hidden = False
+            for (n, v) in attrs:
+                if n == "type":
+                    hidden = _ascii_lower(v) == "hidden"
+                    break
+            if not hidden:
+                self.frameset_ok = False
+            return None
+        if name in ("param", "source", "track"):
+            self.insert_html_element(name, attrs)
+            stack.pop()
+            return None
+        if name == "hr":
+            if self.in_button_scope("p"):
+                self.close_p()
+            self.insert_html_element(name, attrs)
+            stack.pop()
+            self.frameset_ok = False
+            return None
+        if name == "image":
+            self.err()
+            self.trace.add("image-to-img")
+            return self.in_body_start(("start", "img", attrs, token[3]))
+        if name == "textarea":
+            self.trace.add("dev:textarea")
+            el = self.insert_html_element(name, attrs)
+            self.skip_lf = True
+            self.tok.state = "rcdata"
+            self.original_mode = self.mode
+            self.frameset_ok = False
+            if "textarea" in self.compat:
+                # html5lib: stays in the current insertion mode (see phase 2 notes)
+                self.textarea_from_body = el
+                return None
+            self.textarea_from_body = el
+            self.set_mode("text")
+            return None
+        if name == "xmp":
+            if self.in_button_scope("p"):
+                self.close_p()
+            self.reconstruct_afe()
+            self.frameset_ok = False
+            self.generic_text(token, "rawtext")
+            return None
+        if name == "iframe":
+            self.frameset_ok = False
+            self.generic_text(token, "rawtext")
+            return None
+        if name == "noembed" or (name == "noscript" and self.scripting):
+            self.generic_text(token, "rawtext")
+            return None
+        if name == "select":
+            self.reconstruct_afe()
+            self.insert_html_element(name, attrs)
+            self.frameset_ok = False
+            if self.mode in TABLE_MODES_FOR_SELECT:
+                self.set_mode("in select in table")
+            else:
+                self.set_mode("in select")
+            return None
+        if name in ("optgroup", "option"):
+            if self.is_html(stack[-1], "option"):
+                stack.pop()
+            self.reconstruct_afe()
+            self.insert_html_element(name, attrs)
+            return None
+        if name in ("rb", "rtc"):
+            self.trace.add("dev:rb-rtc")
+            if "rb-rtc" not in self.compat:
+                if self.in_scope("ruby"):
+                    self.generate_implied_end_tags()
+                    if not self.is_html(stack[-1], "ruby"):
+                        self.err()
+                self.insert_html_element(name, attrs)
+                return None
+            # compat: html5lib treats rb/rtc as "any other start tag"
+            self.reconstruct_afe()
+            self.insert_html_element(name, attrs)
+            return None
+        if name in ("rp", "rt"):
+            if self.in_scope("ruby"):
+                if "rb-rtc" in self.compat:
+                    self.generate_implied_end_tags()
+                else:
+                    self.generate_implied_end_tags(except_for="rtc")
+                cur = stack[-1]
+                if not (cur.ns == HTML_NS and cur.name in ("rtc", "ruby")):
+                    self.err()
+                if self.is_html(cur, "rtc"):
+                    self.trace.add("dev:rb-rtc")
+            self.insert_html_element(name, attrs)
+            return None
+        if name == "math" or name == "svg":
+            self.reconstruct_afe()
+            ns = MATHML_NS if name == "math" else SVG_NS
+            fattrs = self.adjust_foreign_attrs(attrs, ns)
+            self.insert_element(name, fattrs, ns)
+            if token[3]:
+                stack.pop()
+                self.trace.add("foreign-self-closing")
+            return None
+        if name in self.BODY_IGNORED_START:
+            self.err()
+            return None
+        # any other start tag
+        if name == "menuitem":
+            self.trace.add("ambiguous:menuitem")
+        if name == "isindex":
+            self.trace.add("dev:isindex")
+            if "isindex" in self.compat:
+                return self.compat_isindex(token)
+        self.reconstruct_afe()
+        self.insert_html_element(name, attrs)
+        return None
+
+    def in_body_end(self, token):
+        name = token[1]
+        stack = self.stack
+        if name == "template":
+            return self.m_in_head(token)
+        if name == "body":
+            if not self.in_scope("body"):
+                self.err()
+                self.trace.add("scope-barrier")
+                return None
+            self.set_mode("after body")
+            return None
+        if name == "html":
+            if not self.in_scope("body"):
+                self.err()
+                self.trace.add("scope-barrier")
+                return None
+            self.set_mode("after body")
+            return REPROCESS
+        if name in self.BODY_BLOCK_END:
+            if name == "dialog":
+                self.check_dialog_end_deviation()
+                if "dialog-end" in self.compat:
+                    self.any_other_end_tag(name)
+                    return None
+            if not self.in_scope(name):
+                self.err()
+                self.trace.add("scope-barrier")
+                return None
+            self.generate_implied_end_tags()
+            if not self.is_html(stack[-1], name):
+                self.err()
+            self.pop_until(name)
+            return None
+        if name == "form":
+            if not self.template_on_stack():
+                node = self.form
+                self.form = None
+                if node is None or not self.node_in_scope(node):
+                    self.err()
+                    return None
+                self.generate_implied_end_tags()
+                if stack[-1] is not node:
+                    self.err()
+                    self.trace.add("form-end-remove-middle")
+                self.remove_from_stack(node)
+                return None
+            self.trace.add("template")
+            if not self.in_scope("form"):
+                self.err()
+                return None
+            self.generate_implied_end_tags()
+            if not self.is_html(stack[-1], "form"):
+                self.err()
+            self.pop_until("form")
+            return None
+        if name == "p":
+            if not self.in_button_scope("p"):
+                self.err()
+                self.trace.add("implied-p")
+                self.insert_html_element("p")
+            self.close_p()
+            return None
+        if name == "li":
+            if not self.in_list_item_scope("li"):
+                self.err()
+                self.trace.add("scope-barrier")
+                return None
+            self.generate_implied_end_tags(except_for="li")
+            if not self.is_html(stack[-1], "li"):
+                self.err()
+            self.pop_until("li")
+            return None
+        if name in ("dd", "dt"):
+            if not self.in_scope(name):
+                self.err()
+                self.trace.add("scope-barrier")
+                return None
+            self.generate_implied_end_tags(except_for=name)
+            if not self.is_html(stack[-1], name):
+                self.err()
+            self.pop_until(name)
+            return None
+        if name in HEADINGS:
+            if not self.in_scope(HEADINGS):
+                self.err()
+                self.trace.add("scope-barrier")
+                return None
+            self.generate_implied_end_tags()
+            if not self.is_html(stack[-1], name):
+                self.err()
+            self.pop_until(HEADINGS)
+            return None
+        if name in FORMATTING:
+            self.adoption_agency(name)
+            return None
+        if name in ("applet", "marquee", "object"):
+            if not self.in_scope(name):
+                self.err()
+                self.trace.add("scope-barrier")
+                return None
+            self.generate_implied_end_tags()
+            if not self.is_html(stack[-1], name):
+                self.err()
+            self.pop_until(name)
+            self.clear_afe_to_marker()
+            return None
+        if name == "br":
+            self.err()
+            self.trace.add("br-end-tag")
+            return self.in_body_start(("start", "br", [], False))
+        self.any_other_end_tag(name)
+        return None
+
+    def check_dialog_end_deviation(self):
+        """tag dev:dialog-end when treating </dialog> as 'any other end tag' would differ"""
+        scoped = self.in_scope("dialog")
+        other = False
+        stack = self.stack
+        i = len(stack) - 1
+        while i >= 0:
+            node = stack[i]
+            if node.name == "dialog" and node.ns == HTML_NS:
+                other = True
+                break
+            if (node.ns == HTML_NS and node.name in SPECIAL_HTML) or \
+               (node.ns == MATHML_NS and node.name in SPECIAL_MATHML) or \
+               (node.ns == SVG_NS and node.name in SPECIAL_SVG):
+                break
+            i -= 1
+        if scoped != other:
+            self.trace.add("dev:dialog-end")
+
+    # ------------------------------------------------------------------ text
+    def m_text(self, token):
+        kind = token[0]
+        if kind == "chars":
+            self.insert_text(token[1])
+            return None
+        if kind == "eof":
+            self.err()
+            self.stack.pop()
+            self.set_mode(self.original_mode)
+            return REPROCESS
+        if kind == "end":
+            self.stack.pop()
+            self.set_mode(self.original_mode)
+            return None
+        # not reachable with a conforming tokenizer (text mode only sees chars/end/eof)
+        return None
+
+    # ------------------------------------------------------------------ in table
+    TABLE_CONTEXT = frozenset(["table", "template", "html"])
+    TABLE_BODY_CONTEXT = frozenset(["tbody", "tfoot", "thead", "template", "html"])
+    TABLE_ROW_CONTEXT = frozenset(["tr", "template", "html"])
+
+    def m_in_table(self, token):
+        kind = token[0]
+        stack = self.stack
+        if kind == "chars":
+            cur = stack[-1]
+            if cur.ns == HTML_NS and cur.name in TABLE_FOSTER_TARGETS:
+                self.pending_table_chars = []
+                self.original_mode = self.mode
+                self.set_mode("in table text")
+                return REPROCESS
+            return self.in_table_anything_else(token)
+        if kind == "comment":
+            self.insert_comment(token[1])
+            return None
+        if kind == "doctype":
+            self.err()
+            self.trace.add("doctype-ignored")
+            return None
+        if kind == "start":
+            name = token[1]
+            if name == "caption":
+                self.clear_stack_to(self.TABLE_CONTEXT)
+                self.push_marker()
+                self.insert_html_element(name, token[2])
+                self.set_mode("in caption")
+                return None
+            if name == "colgroup":
+                self.clear_stack_to(self.TABLE_CONTEXT)
+                self.insert_html_element(name, token[2])
+                self.set_mode("in column group")
+                return None
+            if name == "col":
+                self.clear_stack_to(self.TABLE_CONTEXT)
+                self.insert_html_element("colgroup")
+                self.set_mode("in column group")
+                return REPROCESS
+            if name in ("tbody", "tfoot", "thead"):
+                self.clear_stack_to(self.TABLE_CONTEXT)
+                self.insert_html_element(name, token[2])
+                self.set_mode("in table body")
+                return None
+            if name in ("td", "th", "tr"):
+                self.clear_stack_to(self.TABLE_CONTEXT)
+                self.insert_html_element("tbody")
+                self.set_mode("in table body")
+                return REPROCESS
+            if name == "table":
+                self.err()
+                if not self.in_table_scope("table"):
+                    return None
+                self.pop_until("table")
+                self.reset_insertion_mode()
+                return REPROCESS
+            if name in ("style", "script", "template"):
+                return self.m_in_head(token)
+            if name == "input":
+                hidden = False
+                for (n, v) in token[2]:
+                    if n == "type":
+                        hidden = _ascii_lower(v) == "hidden"
+                        break
+                if not hidden:
+                    return self.in_table_anything_else(token)
+                self.err()
+                self.insert_html_element(name, token[2])
+                stack.pop()
+                return None
+            if name == "form":
+                self.err()
+                if self.template_on_stack() or self.form is not None:
+                    return None
+                self.form = self.insert_html_element(name, token[2])
+                stack.pop()
+                return None
+            return self.in_table_anything_else(token)
+        if kind == "end":
+            name = token[1]
+            if name == "table":
+                if not self.in_table_scope("table"):
+                    self.err()
+                    return None
+                self.pop_until("table")
+                self.reset_insertion_mode()
+                return None
+            if name in ("body", "caption", "col", "colgroup", "html", "tbody", "td", "tfoot",
+                        "th", "thead", "tr"):
+                self.err()
+                return None
+            if name == "template":
+                return self.m_in_head(token)
+            return self.in_table_anything_else(token)
+        # EOF
+        return self.m_in_body(token)
+
+    def in_table_anything_else(self, token):
+        self.err()
+        self.foster = True
+        try:
+            r = self.m_in_body(token)
+        finally:
+            self.foster = False
+        return r
+
+    # ------------------------------------------------------------------ in table text
+    def m_in_table_text(self, token):
+        kind = token[0]
+        if kind == "chars":
+            if token[2] == "nul":
+                self.err()
+                self.trace.add("nul-dropped")
+                return None
+            self.pending_table_chars.append(token)
+            return None
+        pending = self.pending_table_chars
+        self.pending_table_chars = []
+        nonws = False
+        for t in pending:
+            if t[2] != "ws":
+                nonws = True
+                break
+        if nonws:
+            self.err()
+            self.trace.add("table-text-foster")
+            for t in pending:
+                self.in_table_anything_else(t)
+        elif pending:
+            self.trace.add("table-text-ws")
+            self.insert_text("".join(t[1] for t in pending))
+        self.set_mode(self.original_mode)
+        return REPROCESS
+
+    # ------------------------------------------------------------------ in caption
+    def m_in_caption(self, token):
+        kind = token[0]
+        if kind == "end":
+            name = token[1]
+            if name == "caption":
+                self.close_caption()
+                return None
+            if name == "table":
+                if self.close_caption():
+                    return REPROCESS
+                return None
+            if name in ("body", "col", "colgroup", "html", "tbody", "td", "tfoot", "th",
+                        "thead", "tr"):
+                self.err()
+                return None
+        elif kind == "start":
+            if token[1] in ("caption", "col", "colgroup", "tbody", "td", "tfoot", "th", "thead",
+                            "tr"):
+                if self.close_caption():
+                    return REPROCESS
+                return None
+        return self.m_in_body(token)
+
+    def close_caption(self):
+        if not self.in_table_scope("caption"):
+            self.err()
+            return False
+        self.generate_implied_end_tags()
+        if not self.is_html(self.stack[-1], "caption"):
+            self.err()
+        self.pop_until("caption")
+        self.clear_afe_to_marker()
+        self.set_mode("in table")
+        return True
+
+    # ------------------------------------------------------------------ in column group
+    def m_in_column_group(self, token):
+        kind = token[0]
+        stack = self.stack
+        if kind == "chars" and token[2] == "ws":
+            self.insert_text(token[1])
+            return None
+        if kind == "comment":
+            self.insert_comment(token[1])
+            return None
+        if kind == "doctype":
+            self.err()
+            self.trace.add("doctype-ignored")
+            return None
+        if kind == "start":
+            name = token[1]
+            if name == "html":
+                return self.m_in_body(token)
+            if name == "col":
+                self.insert_html_element(name, token[2])
+                stack.pop()
+                return None
+            if name == "template":
+                return self.m_in_head(token)
+        elif kind == "end":
+            name = token[1]
+            if name == "colgroup":
+                if not self.is_html(stack[-1], "colgroup"):
+                    self.err()
+                    return None
+                stack.pop()
+                self.set_mode("in table")
+                return None
+            if name == "col":
+                self.err()
+                return None
+            if name == "template":
+                return self.m_in_head(token)
+        elif kind == "eof":
+            return self.m_in_body(token)
+        # anything else
+        if not self.is_html(stack[-1], "colgroup"):
+            self.err()
+            return None
+        stack.pop()
+        self.set_mode("in table")
+        return REPROCESS
+
+    # ------------------------------------------------------------------ in table body
+    def m_in_table_body(self, token):
+        kind = token[0]
+        stack = self.stack
+        if kind == "start":
+            name = token[1]
+            if name == "tr":
+                self.clear_stack_to(self.TABLE_BODY_CONTEXT)
+                self.insert_html_element(name, token[2])
+                self.set_mode("in row")
+                return None
+            if name in ("th", "td"):
+                self.err()
+                self.clear_stack_to(self.TABLE_BODY_CONTEXT)
+                self.insert_html_element("tr")
+                self.set_mode("in row")
+                return REPROCESS
+            if name in ("caption", "col", "colgroup", "tbody", "tfoot", "thead"):
+                return self.table_body_close_and_reprocess()
+        elif kind == "end":
+            name = token[1]
+            if name in ("tbody", "tfoot", "thead"):
+                if not self.in_table_scope(name):
+                    self.err()
+                    return None
+                self.clear_stack_to(self.TABLE_BODY_CONTEXT)
+                stack.pop()
+                self.set_mode("in table")
+                return None
+            if name == "table":
+                return self.table_body_close_and_reprocess()
+            if name in ("body", "caption", "col", "colgroup", "html", "td", "th", "tr"):
+                self.err()
+                return None
+        return self.m_in_table(token)
+
+    def table_body_close_and_reprocess(self):
+        if not self.in_table_scope(("tbody", "thead", "tfoot")):
+            self.err()
+            return None
+        self.clear_stack_to(self.TABLE_BODY_CONTEXT)
+        self.stack.pop()
+        self.set_mode("in table")
+        return REPROCESS
+
+    # ------------------------------------------------------------------ in row
+    def m_in_row(self, token):
+        kind = token[0]
+        stack = self.stack
+        if kind == "start":
+            name = token[1]
+            if name in ("th", "td"):
+                self.clear_stack_to(self.TABLE_ROW_CONTEXT)
+                self.insert_html_element(name, token[2])
+                self.set_mode("in cell")
+                self.push_marker()
+                return None
+            if name in ("caption", "col", "colgroup", "tbody", "tfoot", "thead", "tr"):
+                return REPROCESS if self.close_row() else None
+        elif kind == "end":
+            name = token[1]
+            if name == "tr":
+                self.close_row()
+                return None
+            if name == "table":
+                return REPROCESS if self.close_row() else None
+            if name in ("tbody", "tfoot", "thead"):
+                if not self.in_table_scope(name):
+                    self.err()
+                    return None
+                return REPROCESS if self.close_row() else None
+            if name in ("body", "caption", "col", "colgroup", "html", "td", "th"):
+                self.err()
+                return None
+        return self.m_in_table(token)
+
+    def close_row(self):
+        if not self.in_table_scope("tr"):
+            self.err()
+            return False
+        self.clear_stack_to(self.TABLE_ROW_CONTEXT)
+        self.stack.pop()
+        self.set_mode("in table body")
+        return True
+
+    # ------------------------------------------------------------------ in cell
+    def m_in_cell(self, token):
+        kind = token[0]
+        stack = self.stack
+        if kind == "end":
+            name = token[1]
+            if name in ("td", "th"):
+                if not self.in_table_scope(name):
+                    self.err()
+                    return None
+                self.generate_implied_end_tags()
+                if not self.is_html(stack[-1], name):
+                    self.err()
+                self.pop_until(name)
+                self.clear_afe_to_marker()
+                self.set_mode("in row")
+                return None
+            if name in ("body", "caption", "col", "colgroup", "html"):
+                self.err()
+                return None
+            if name in ("table", "tbody", "tfoot", "thead", "tr"):
+                if not self.in_table_scope(name):
+                    self.err()
+                    return None
+                self.close_cell()
+                return REPROCESS
+        elif kind == "start":
+            if token[1] in ("caption", "col", "colgroup", "tbody", "td", "tfoot", "th", "thead",
+                            "tr"):
+                if not self.in_table_scope(("td", "th")):
+                    self.err()
+                    return None
+                self.close_cell()
+                return REPROCESS
+        return self.m_in_body(token)
+
+    def close_cell(self):
+        self.generate_implied_end_tags()
+        cur = self.stack[-1]
+        if not (cur.ns == HTML_NS and cur.name in ("td", "th")):
+            self.err()
+        self.pop_until(("td", "th"))
+        self.clear_afe_to_marker()
+        self.set_mode("in row")
+
+    # ------------------------------------------------------------------ in select
+    def m_in_select(self, token):
+        kind = token[0]
+        stack = self.stack
+        if kind == "chars":
+            if token[2] == "nul":
+                self.err()
+                self.trace.add("nul-dropped")
+                return None
+            self.insert_text(token[1])
+            return None
+        if kind == "comment":
+            self.insert_comment(token[1])
+            return None
+        if kind == "doctype":
+            self.err()
+            self.trace.add("doctype-ignored")
+            return None
+        if kind == "start":
+            name = token[1]
+            if name == "html":
+                return self.m_in_body(token)
+            if name == "option":
+                if self.is_html(stack[-1], "option"):
+                    stack.pop()
+                self.insert_html_element(name, token[2])
+                return None
+            if name == "optgroup":
+                if self.is_html(stack[-1], "option"):
+                    stack.pop()
+                if self.is_html(stack[-1], "optgroup"):
+                    stack.pop()
+                self.insert_html_element(name, token[2])
+                return None
+            if name == "select":
+                self.err()
+                if not self.in_select_scope("select"):
+                    return None
+                self.pop_until("select")
+                self.reset_insertion_mode()
+                return None
+            if name in ("input", "keygen", "textarea"):
+                self.err()
+                if not self.in_select_scope("select"):
+                    return None
+                self.pop_until("select")
+                self.reset_insertion_mode()
+                return REPROCESS
+            if name in ("script", "template"):
+                return self.m_in_head(token)
+            self.err()
+            return None
+        if kind == "end":
+            name = token[1]
+            if name == "optgroup":
+                if (self.is_html(stack[-1], "option") and len(stack) >= 2
+                        and self.is_html(stack[-2], "optgroup")):
+                    stack.pop()
+                if self.is_html(stack[-1], "optgroup"):
+                    stack.pop()
+                else:
+                    self.err()
+                return None
+            if name == "option":
+                if self.is_html(stack[-1], "option"):
+                    stack.pop()
+                else:
+                    self.err()
+                return None
+            if name == "select":
+                if not self.in_select_scope("select"):
+                    self.err()
+                    return None
+                self.pop_until("select")
+                self.reset_insertion_mode()
+                return None
+            if name == "template":
+                return self.m_in_head(token)
+            self.err()
+            return None
+        # EOF
+        return self.m_in_body(token)
+
+    # ------------------------------------------------------------------ in select in table
+    SELECT_IN_TABLE_NAMES = frozenset(["caption", "table", "tbody", "tfoot", "thead", "tr", "td",
+                                       "th"])
+
+    def m_in_select_in_table(self, token):
+        kind = token[0]
+        if kind == "start" and token[1] in self.SELECT_IN_TABLE_NAMES:
+            self.err()
+            self.trace.add("select-in-table-breakout")
+            self.pop_until("select")
+            self.reset_insertion_mode()
+            return REPROCESS
+        if kind == "end" and token[1] in self.SELECT_IN_TABLE_NAMES:
+            self.err()
+            if not self.in_table_scope(token[1]):
+                return None
+            self.trace.add("select-in-table-breakout")
+            self.pop_until("select")
+            self.reset_insertion_mode()
+            return REPROCESS
+        return self.m_in_select(token)
+
+    # ------------------------------------------------------------------ in template
+    def m_in_template(self, token):
+        self.trace.add("template")
+        kind = token[0]
+        if kind in ("chars", "comment", "doctype"):
+            return self.m_in_body(token)
+        if kind == "start":
+            name = token[1]
+            if name in self.BODY_HEADISH_START:
+                return self.m_in_head(token)
+            if name in ("caption", "colgroup", "tbody", "tfoot", "thead"):
+                new = "in table"
+            elif name == "col":
+                new = "in column group"
+            elif name == "tr":
+                new = "in table body"
+            elif name in ("td", "th"):
+                new = "in row"
+            else:
+                new = "in body"
+            self.template_modes.pop()
+            self.template_modes.append(new)
+            self.set_mode(new)
+            return REPROCESS
+        if kind == "end":
+            if token[1] == "template":
+                return self.m_in_head(token)
+            self.err()
+            return None
+        # EOF
+        if not self.template_on_stack():
+            self.stop_parsing()
+            return None
+        self.err()
+        self.pop_until("template")
+        self.clear_afe_to_marker()
+        self.template_modes.pop()
+        self.reset_insertion_mode()
+        return REPROCESS
+
+    # ------------------------------------------------------------------ after body
+    def m_after_body(self, token):
+        kind = token[0]
+        if kind == "chars" and token[2] == "ws":
+            self.trace.add("after-body-ws")
+            if self.afe_needs_reconstruct():
+                self.trace.add("dev:after-body-ws")
+                if "after-body-ws" in self.compat:
+                    self.insert_text(token[1])
+                    return None
+            return self.m_in_body(token)
+        if kind == "comment":
+            self.insert_comment(token[1], self.stack[0])
+            return None
+        if kind == "doctype":
+            self.err()
+            self.trace.add("doctype-ignored")
+            return None
+        if kind == "start" and token[1] == "html":
+            return self.m_in_body(token)
+        if kind == "end" and token[1] == "html":
+            if self.context is not None:
+                self.err()
+                return None
+            self.set_mode("after after body")
+            return None
+        if kind == "eof":
+            self.stop_parsing()
+            return None
+        self.err()
+        self.set_mode("in body")
+        return REPROCESS
+
+    # ------------------------------------------------------------------ frameset modes
+    def frameset_text(self, token):
+        """character handling shared by in frameset / after frameset (ws inserted, rest ignored)"""
+        cls = token[2]
+        if cls == "ws":
+            if self.run_has_nonws:
+                self.trace.add("frameset-text-mixed")
+                self.trace.add("dev:frameset-text")
+                if "frameset-text" in self.compat:
+                    return None
+            self.run_has_ws = True
+            self.insert_text(token[1])
+            return None
+        if cls == "text":
+            self.run_has_nonws = True
+            if self.run_has_ws:
+                self.trace.add("frameset-text-mixed")
+        else:
+            self.trace.add("nul-dropped")
+            # html5lib's tokenizer ends a character token at NUL
+            self.run_has_nonws = False
+        self.err()
+        return None
+
+    def m_in_frameset(self, token):
+        kind = token[0]
+        stack = self.stack
+        if kind == "chars":
+            return self.frameset_text(token)
+        if kind == "comment":
+            self.insert_comment(token[1])
+            return None
+        if kind == "doctype":
+            self.err()
+            self.trace.add("doctype-ignored")
+            return None
+        if kind == "start":
+            name = token[1]
+            if name == "html":
+                return self.m_in_body(token)
+            if name == "frameset":
+                self.insert_html_element(name, token[2])
+                self.trace.add("frameset")
+                return None
+            if name == "frame":
+                self.insert_html_element(name, token[2])
+                stack.pop()
+                return None
+            if name == "noframes":
+                return self.m_in_head(token)
+            self.err()
+            return None
+        if kind == "end":
+            if token[1] == "frameset":
+                if len(stack) == 1 and self.is_html(stack[0], "html"):
+                    self.err()
+                    return None
+                stack.pop()
+                if self.context is None and not self.is_html(stack[-1], "frameset"):
+                    self.set_mode("after frameset")
+                return None
+            self.err()
+            return None
+        # EOF
+        self.stop_parsing()
+        return None
+
+    def m_after_frameset(self, token):
+        kind = token[0]
+        if kind == "chars":
+            return self.frameset_text(token)
+        if kind == "comment":
+            self.insert_comment(token[1])
+            return None
+        if kind == "doctype":
+            self.err()
+            self.trace.add("doctype-ignored")
+            return None
+        if kind == "start":
+            if token[1] == "html":
+                return self.m_in_body(token)
+            if token[1] == "noframes":
+                return self.m_in_head(token)
+            self.err()
+            return None
+        if kind == "end":
+            if token[1] == "html":
+                self.set_mode("after after frameset")
+                return None
+            self.err()
+            return None
+        self.stop_parsing()
+        return None
+
+    # ------------------------------------------------------------------ after after ...
+    def m_after_after_body(self, token):
+        kind = token[0]
+        if kind == "comment":
+            self.insert_comment(token[1], self.document)
+            return None
+        if (kind == "doctype" or (kind == "chars" and token[2] == "ws")
+                or (kind == "start" and token[1] == "html")):
+            return self.m_in_body(token)
+        if kind == "eof":
+            self.stop_parsing()
+            return None
+        self.err()
+        self.set_mode("in body")
+        return REPROCESS
+
+    def m_after_after_frameset(self, token):
+        kind = token[0]
+        if kind == "comment":
+            self.insert_comment(token[1], self.document)
+            return None
+        if kind == "chars" and token[2] != "ws":
+            return self.frameset_text(token)
+        if (kind == "doctype" or kind == "chars"
+                or (kind == "start" and token[1] == "html")):
+            if kind == "chars":
+                if self.run_has_nonws:
+                    self.trace.add("frameset-text-mixed")
+                    self.trace.add("dev:frameset-text")
+                    if "frameset-text" in self.compat:
+                        return None
+                self.run_has_ws = True
+            return self.m_in_body(token)
+        if kind == "eof":
+            self.stop_parsing()
+            return None
+        if kind == "start" and token[1] == "noframes":
+            return self.m_in_head(token)
+        self.err()
+        return None
+
+    # ------------------------------------------------------------------ foreign content
+    def adjust_foreign_attrs(self, token_attrs, ns):
+        """adjust MathML / SVG attributes (by ns of the element being created) and then
+        adjust foreign attributes; returns a list of (attr_ns, local, value)"""
+        out = []
+        for (n, v) in token_attrs:
+            if ns == MATHML_NS:
+                if n == "definitionurl":
+                    n = "definitionURL"
+            elif ns == SVG_NS:
+                if n in SVG_ATTRS:
+                    n = SVG_ATTRS[n]
+                elif n in SVG_ATTRS_OBSOLETE:
+                    self.trace.add("ambiguous:svg-attr-obsolete")
+            f = FOREIGN_ATTRS.get(n)
+            if f is not None:
+                out.append((f[0], f[1], v))
+            else:
+                if n == "xml:base":
+                    self.trace.add("ambiguous:xml-base")
+                out.append((None, n, v))
+        return out
+
+    def foreign_content(self, token):
+        self.trace.add("foreign")
+        kind = token[0]
+        stack = self.stack
+        if kind == "chars":
+            cls = token[2]
+            if cls == "nul":
+                self.err()
+                self.trace.add("nul-replaced")
+                self.trace.add("dev:cdata-nul")
+                self.insert_text(u"\ufffd" * len(token[1]))
+                return None
+            self.insert_text(token[1])
+            if cls == "text":
+                self.frameset_ok = False
+            return None
+        if kind == "comment":
+            self.insert_comment(token[1])
+            return None
+        if kind == "doctype":
+            self.err()
+            self.trace.add("doctype-ignored")
+            return None
+        if kind == "start":
+            name = token[1]
+            attrs = token[2]
+            breakout = name in FOREIGN_BREAKOUT
+            if not breakout and name == "font":
+                for (n, v) in attrs:
+                    if n in ("color", "face", "size"):
+                        breakout = True
+                        break
+            if breakout:
+                self.err()
+                if self.context is not None:
+                    # June 2020 wording: in the fragment case act as "any other start tag"
+                    self.trace.add("ambiguous:foreign-breakout-fragment")
+                else:
+                    self.trace.add("foreign-breakout")
+                    stack.pop()
+                    while True:
+                        cur = stack[-1]
+                        if (cur.ns == HTML_NS
+                                or (cur.ns == MATHML_NS and cur.name in MATHML_TEXT_IP)
+                                or self.is_html_integration_point(cur)):
+                            break
+                        stack.pop()
+                    return REPROCESS
+            # any other start tag
+            acn = self.adjusted_current_node()
+            ns = acn.ns
+            if ns == SVG_NS:
+                if name in SVG_TAG_NAMES:
+                    if name == "fedropshadow":
+                        self.trace.add("ambiguous:fedropshadow")
+                    name = SVG_TAG_NAMES[name]
+            fattrs = self.adjust_foreign_attrs(attrs, ns)
+            self.insert_element(name, fattrs, ns)
+            if token[3]:
+                # (script in SVG: "act as end tag script" == pop, scripts are not executed)
+                stack.pop()
+                self.trace.add("foreign-self-closing")
+            return None
+        if kind == "end":
+            name = token[1]
+            if name in ("p", "br"):
+                self.trace.add("ambiguous:foreign-end-p-br")
+            cur = stack[-1]
+            if name == "script" and cur.ns == SVG_NS and cur.name == "script":
+                stack.pop()
+                return None
+            # any other end tag
+            i = len(stack) - 1
+            node = stack[i]
+            if _ascii_lower(node.name) != name:
+                self.err()
+            while True:
+                if i == 0:
+                    return None
+                if _ascii_lower(node.name) == name:
+                    del stack[i:]
+                    return None
+                i -= 1
+                node = stack[i]
+                if node.ns != HTML_NS:
+                    continue
+                self.trace.add("foreign-end-to-html")
+                return self.MODES[self.mode](self, token)
+        return None  # EOF never reaches the foreign-content rules
+
+    # ------------------------------------------------------------------ compat helpers
+    def compat_isindex(self, token):   # replaced in phase 2 if implemented
+        self.reconstruct_afe()
+        self.insert_html_element(token[1], token[2])
+        return None
+
+    MODES = {
+        "initial": m_initial,
+        "before html": m_before_html,
+        "before head": m_before_head,
+        "in head": m_in_head,
+        "in head noscript": m_in_head_noscript,
+        "after head": m_after_head,
+        "in body": m_in_body,
+        "text": m_text,
+        "in table": m_in_table,
+        "in table text": m_in_table_text,
+        "in caption": m_in_caption,
+        "in column group": m_in_column_group,
+        "in table body": m_in_table_body,
+        "in row": m_in_row,
+        "in cell": m_in_cell,
+        "in select": m_in_select,
+        "in select in table": m_in_select_in_table,
+        "in template": m_in_template,
+        "after body": m_after_body,
+        "in frameset": m_in_frameset,
+        "after frameset": m_after_frameset,
+        "after after body": m_after_after_body,
+        "after after frameset": m_after_after_frameset,
+    }
+
+
+INSERTION_MODES = sorted(_Parser.MODES)
+
+
+# --------------------------------------------------------------------------------------
+# Entry points
+# --------------------------------------------------------------------------------------
+def parse_document(text, scripting=False, compat=frozenset()):
+    p = _Parser(text, scripting=scripting, compat=compat)
+    p.run()
+    return Result(p.document, p.quirks, p.trace, p.modes)
+
+
+def parse_fragment(text, context="div", scripting=False, compat=frozenset()):
+    p = _Parser(text, scripting=scripting, compat=compat, context=context)
+    p.run()
+    root = p.document.children[0]
+    frag = Node("fragment")
+    kids = root.children
+    root.children = []
+    for c in kids:
+        c.parent = frag
+    frag.children = kids
+    return Result(frag, "no-quirks", p.trace, p.modes)
